@@ -171,8 +171,17 @@ func (q *quorumAckTracker) AdvanceHeadOffset(headOffset int64) {
 
 	if q.requiredAcks == 0 {
 		q.notifyCommitOffsetAdvanced(headOffset)
-	} else {
+		return
+	}
+
+	// A fast follower may have acknowledged the entry before the leader got here (the entry is readable
+	// by the cursors as soon as the WAL is synced, the head is advanced by a callback that runs later)
+	e, found := q.tracker[headOffset]
+	if !found {
 		q.tracker[headOffset] = &util.BitSet{}
+	} else if uint32(e.Count()) >= q.requiredAcks {
+		delete(q.tracker, headOffset)
+		q.notifyCommitOffsetAdvanced(headOffset)
 	}
 }
 
@@ -236,6 +245,10 @@ func (q *quorumAckTracker) WaitForCommitOffsetAsync(_ context.Context, offset in
 }
 
 func (q *quorumAckTracker) notifyCommitOffsetAdvanced(commitOffset int64) {
+	if commitOffset <= q.commitOffset.Load() {
+		// The commit offset only moves forward
+		return
+	}
 	q.commitOffset.Store(commitOffset)
 	if vhook.Enabled {
 		vhook.At("qat.commit", q, commitOffset, q.headOffset.Load())
@@ -300,16 +313,22 @@ func (c *cursorAcker) Ack(offset int64) {
 func (c *cursorAcker) ack(offset int64) {
 	q := c.quorumTracker
 
-	e, found := q.tracker[offset]
-	if !found {
+	if offset <= q.commitOffset.Load() {
 		// The entry has already previously reached the quorum.
 		// There's nothing more left to do here.
 		return
 	}
 
+	e, found := q.tracker[offset]
+	if !found {
+		// The ack arrived before the leader advanced its own head to this entry: it must not be lost
+		e = &util.BitSet{}
+		q.tracker[offset] = e
+	}
+
 	// Mark that this follower has acked the entry
 	e.Set(c.cursorIdx)
-	if uint32(e.Count()) == q.requiredAcks {
+	if uint32(e.Count()) >= q.requiredAcks && offset <= q.headOffset.Load() {
 		delete(q.tracker, offset)
 
 		// Advance the commit offset
